@@ -22,7 +22,7 @@ func init() {
 			"(netip.Addr for A on the true edge of Is4 and of a successful parse, for AAAA on the Is6 / not-Is4 edge of a successful parse, *DNSMX, *DNSSRV, *DNSSVCB, string for PTR/TXT, nothing otherwise). " +
 			"R2: the dispatcher looks the handler up with the very value it passes as record type, and handlers store their parameters. R3: the PTR value is the FQDN helper's result or already ends in a dot. " +
 			"R4: the parser functions have no out-of-range index. R5: the parser writes no shared memory and the handler table is written only by its initialiser (determinism).",
-		Trusted: []string{"github.com/miekg/dns constants (TypeA, ...) and dns.Fqdn; netip.Addr.Is4/Is6"},
+		Trusted:     []string{"github.com/miekg/dns constants (TypeA, ...) and dns.Fqdn; netip.Addr.Is4/Is6"},
 		Assumptions: []string{"that every malformed value is REJECTED is not decided (needs the value grammar as oracle)"},
 	})
 }
